@@ -733,17 +733,15 @@ static void conf_parse_entry(struct conf_parse *parse, struct conf_node_object *
         parse->curr--;
         string = conf_parse_string(parse);
         ch = conf_parse_whitespace(parse, 1);
-        if (ch == ';' || ch == '\n' || ch == '}') {
+        if (ch == ';' || ch == '\n' || ch == '}' || ch == '\0') {
             struct conf_node_string *node;
 
-            parse->curr--;
+            /* Leave the terminator for the check at the end. */
+            if (ch != '\0')
+                parse->curr--;
             node = conf_parse_get_child(parent, name, CONF_STRING, sizeof(*node));
             xfree(node->value);
             node->value = string;
-            if ((ch == '}') && (parent != &parse->root)) {
-                parse->curr--;
-                return;
-            }
         } else if (ch == ',') {
             struct conf_node_string_list *node;
             struct string_vector new_value;
@@ -756,16 +754,20 @@ static void conf_parse_entry(struct conf_parse *parse, struct conf_node_object *
                 ch = conf_parse_whitespace(parse, 1);
                 if (ch == '\0')
                     longjmp(parse->env, PARSE_PREMATURE_EOF);
-                if (ch == '\n')
+                if (ch == '\n') {
+                    parse->curr--;
                     break;
+                }
                 parse->curr--;
                 value = conf_parse_string(parse);
                 string_vector_append(&new_value, value);
                 ch = conf_parse_whitespace(parse, 1);
-                if (ch == '\0')
-                    longjmp(parse->env, PARSE_PREMATURE_EOF);
-                if (ch == '\n' || ch == ';')
+                if (ch == '\n' || ch == ';' || ch == '}' || ch == '\0') {
+                    /* Leave the terminator for the check at the end. */
+                    if (ch != '\0')
+                        parse->curr--;
                     break;
+                }
                 if (ch != ',')
                     longjmp(parse->env, PARSE_EXPECTED_COMMA);
             }
@@ -784,7 +786,16 @@ static void conf_parse_entry(struct conf_parse *parse, struct conf_node_object *
             node->service = service;
         }
     }
+    /* An entry ends at ';' or a newline; the last one in an object may
+     * be followed directly by '}', the last one in the file by its end.
+     */
     ch = conf_parse_whitespace(parse, 1);
+    if (ch == '\0')
+        return;
+    if ((ch == '}') && (parent != &parse->root)) {
+        parse->curr--;
+        return;
+    }
     if ((ch != ';') && (ch != '\n'))
         longjmp(parse->env, PARSE_EXPECTED_SEMICOLON);
 }
